@@ -1,5 +1,8 @@
 import Spydr.Verilog.Props.C04
 import Spydr.Verilog.Props.C06
+import Spydr.Verilog.RoundTripShape
+import Spydr.Verilog.RoundTripSingle
+import Spydr.Verilog.RoundTripBits
 
 #print axioms Spydr.Verilog.getWires_spec
 #print axioms Spydr.Verilog.getWires_spec_single_all
@@ -26,3 +29,23 @@ import Spydr.Verilog.Props.C06
 #print axioms Spydr.Verilog.elab_connection_spec
 #print axioms Spydr.Verilog.write_order_total
 #print axioms Spydr.Verilog.elab_connection_total
+#print axioms Spydr.Verilog.Elab.instantiate_named
+#print axioms Spydr.Verilog.Elab.instances_fold
+#print axioms Spydr.Verilog.Elab.header_fold
+#print axioms Spydr.Verilog.Elab.wires_fold
+#print axioms Spydr.Verilog.Elab.elabModule_frag
+#print axioms Spydr.Verilog.Elab.elabDesign_frag
+#print axioms Spydr.Verilog.Elab.exDesign_frag
+#print axioms Spydr.Verilog.Elab.reader_shape_frag
+#print axioms Spydr.Verilog.Elab.reader_rows_roundtrip
+#print axioms Spydr.Verilog.Elab.portDecl_stub
+#print axioms Spydr.Verilog.Elab.fold_local
+#print axioms Spydr.Verilog.Elab.elabModule_wshape
+#print axioms Spydr.Verilog.Elab.exW_builds
+#print axioms Spydr.Verilog.Elab.instantiate_first
+#print axioms Spydr.Verilog.Elab.elabDesign_wsingle
+#print axioms Spydr.Verilog.Elab.exWI_builds
+#print axioms Spydr.Verilog.Elab.exprWires_bits
+#print axioms Spydr.Verilog.Elab.buildW3_WF
+#print axioms Spydr.Verilog.Elab.instStep2_den
+#print axioms Spydr.Verilog.Elab.row_roundtrip
